@@ -109,6 +109,12 @@ XorBits(mem, M, x, y, n, values) ==
       m1 == Put(mem, Addr(M, x, block), XorW(mem[Addr(M, x, block)], ShlW(values, spot)))
   IN IF n > W - spot THEN Put(m1, Addr(M, x, block + 1), XorW(m1[Addr(M, x, block + 1)], ShrW(values, W - spot))) ELSE m1
 
+(* mzd_and_bits (as repaired, finding F19): values = n bits, AND-ed into the range; the rest of the words is kept *)
+AndBits(mem, M, x, y, n, values) ==
+  LET ones == ShrW(Bits, W - n)  spot == y % W  block == y \div W
+      m1 == Put(mem, Addr(M, x, block), AndW(mem[Addr(M, x, block)], ShlW(values, spot) \cup NotW(ShlW(ones, spot))))
+  IN IF n > W - spot THEN Put(m1, Addr(M, x, block + 1), AndW(m1[Addr(M, x, block + 1)], ShrW(values, W - spot) \cup NotW(ShrW(ones, W - spot)))) ELSE m1
+
 (* mzd_write_bit *)
 WriteBit(mem, M, r, c, v) ==
   Put(mem, Addr(M, r, c \div W), IF v = 1 THEN mem[Addr(M, r, c \div W)] \cup {c % W} ELSE mem[Addr(M, r, c \div W)] \ {c % W})
